@@ -62,6 +62,10 @@ CHECKS = {
   technique='model-based property testing (Hypothesis-generated call histories interpreted against a plain-dict model of the settings) with a history-independence differential against a fresh optimizer configured directly to the final settings',
   text='Generated phased histories of enable/disable fit, set_mode, set_boundary, set_factor_boundary, set_prior (matching and mismatching spaces), enable/disable derived, compile_params, update_model and unknown-name calls over model and observation parameters; after every compile names, order, values, boundaries, priors and derived names must equal what the settings model implies, writing the reported values back must change nothing, update_model must set exactly the fitted parameters; exploration level.',
   note='Histories are lists of operations drawn by Hypothesis (shrunk as one value) rather than a RuleBasedStateMachine, so that a case is a JSON replay; values/bounds positive; planet_sma treated as the documented alias of planet_distance.'),
+ 'C06': dict(
+  technique='property-based testing (Hypothesis) with recording doubles at the sampler entry points (nestle.sample, pymultinest.run, pypolychord.run_polychord): callbacks are driven with generated unit-cube sequences and compared with reference inverse CDFs and with a Gaussian log-likelihood recomputed by an independent model instance and the reference binning; invalid atmospheres are injected mid-sequence',
+  text='Generated retrievable worlds, fitted-parameter subsets with distinct priors, shuffled heteroscedastic observations and sequences of valid and invalid cube points for each wrapped sampler; prior callback order/values, log-likelihood values, non-finite result without raising for invalid vectors, and absence of state leaking from failed evaluations; exploration level.',
+  note='External samplers replaced by doubles implementing their documented callback contracts; dyPolyChord not covered; chi^2 == 0 excluded (mapped to NaN on purpose by the code).'),
 }
 
 NOT_APPLICABLE = {}
